@@ -46,3 +46,11 @@ Example c06_window :
   nth_error (threads s) 1 = Some (TCloser CTClose {| c_err := 5; c_polls := 0 |} None) /\
   tlog s = [[1]; [2]] /\ returned s = [1; 2] /\ unflushed s = 0 /\ tclosed s = 0.
 Proof. vm_compute. repeat split; reflexivity. Qed.
+
+(* the grace period the theorem speaks of is the one in the source NOW: the poll bound and the batch
+   capacity are extracted from /repo/channel.go on every run (Gen/Consts.v) *)
+From GN Require Import Gen.Consts Proof.Consts_ok.
+Theorem c06_grace_period_is_source : forall s cs, in_grace s cs = orb (until_write s) (c_polls cs <? grace_polls_src).
+Proof. exact grace_polls_is_source. Qed.
+Theorem c06_grace_is_ten_times_100ms : grace_polls_src = 10 /\ grace_sleep_ms_src = 100.
+Proof. exact grace_is_ten_times_100ms. Qed.
